@@ -59,3 +59,21 @@ package upstream
 
 //@ func tryRemovePort [C18]
 //@   ensures result == ite(shpOK(s), shpHost(s), s)
+
+// The two dial functions of a plain-DNS upstream (C17, C18): the UDP transport and its TCP
+// fallback dial the SAME address (the one computed by parseDialAddr / joinPort from the configured
+// address), each exactly once per call, over its own network.
+//@ func NewUpstream$4 [C17, C18]
+//@   requires dialer != nil
+//@   modifies *
+//@   ensures calls(netDial) == 1 && arg(netDial, 0, 0) == dialer && arg(netDial, 0, 2) == "udp" && arg(netDial, 0, 3) == dialAddr
+//@   ensures ret(netDial, 0, 1) != nil ==> result_1 != nil
+//@ func NewUpstream$5 [C17, C18]
+//@   requires dialer != nil
+//@   modifies *
+//@   ensures calls(netDial) == 1 && arg(netDial, 0, 0) == dialer && arg(netDial, 0, 2) == "tcp" && arg(netDial, 0, 3) == dialAddr
+//@   ensures ret(netDial, 0, 1) != nil ==> result_1 != nil
+//@ func wrapConn
+//@   nobody
+//@   modifies *
+//@   ensures (result == nil) == (c == nil)
